@@ -21,7 +21,7 @@ AllNext == Next /\ hist' = Append(hist, <<last'.op, last'.arg, last'.flag>>)
 AllSpec == GInit /\ [][AllNext]_<<vars, hist>>
 ViewAll == vars
 Control == [authed |-> authed, chan |-> chan, x11H |-> x11H, agentH |-> agentH, tcpH |-> tcpH,
-            x11Req |-> x11Req, agentReq |-> agentReq, fwd |-> fwd, hadFwd |-> hadFwd, refusedLast |-> refusedLast]
+            x11Req |-> x11Req, agentReq |-> agentReq, fwd |-> fwd, hadFwd |-> hadFwd, refusedLast |-> refusedLast, subsysReg |-> subsysReg]
 EmitWit == last.op \notin {"global", "open", "chanreq"} => PrintT(<<"WIT", Control, hist>>)
 SimEmit == Len(hist) = MaxLen => PrintT(<<"HIST", hist>>)
 Events == {<<"global", k, w>> : k \in GlobalKinds, w \in BOOLEAN}
